@@ -574,7 +574,10 @@ def components(mask):
 
 
 def fsum(a):
-    return math.fsum(np.asarray(a, dtype=float).ravel().tolist())
+    a = np.asarray(a, dtype=float).ravel()
+    if a.size > 5_000_000:  # exact summation of tens of millions of python floats is too slow: extended precision pairwise sum
+        return float(np.sum(a, dtype=np.longdouble))
+    return math.fsum(a.tolist())
 
 
 def _sig(x, n=3):
@@ -652,6 +655,9 @@ def hdc_gen_scenarios(tier, seed, purpose):
     add("core/3d-aniso", HDC_3D_FIXED, 1e-3, [120, 25, 12], deltas_form="tuple", limits_form="lists")
     add("core/alpha-1e-6", OMAE_HS_TZ, 1e-6, [150, 150], limits_form="reversed")
     add("core/alpha-0.3", DNVGL_HS_U, 0.3, [10, 10])
+
+    if tier == "thorough":  # default limits AND default deltas in 3-D: 401^3 cells
+        add("thorough/3d-defaults", HDC_3D_FIXED, 0.05, None, limits="default")
 
     # ---- seeded
     n2, n3 = (30, 12) if tier == "quick" else (300, 90)
